@@ -339,6 +339,24 @@ def discharge(ob, timeout_ms=None):
                 ob.time = time.time() - t0
                 return ob
             s.pop()
+        # abstraction: every product of two non-numeral terms is replaced by a fresh constant (the same product by the same
+        # constant).  What is valid for arbitrary values of those constants is valid for the products, so an `unsat` of
+        # the abstracted query is a proof; any other answer says nothing.
+        try:
+            apc, agoal, nabs = _abstract_products(list(ob.pc) + [goal])
+        except Exception:
+            nabs = 0
+        if nabs:
+            s2 = z3.Solver()
+            s2.set('timeout', timeout_ms)
+            for c in apc:
+                s2.add(c)
+            s2.add(z3.Not(agoal))
+            if s2.check() == z3.unsat:
+                ob.status, ob.solver = 'unsat', 'z3-%s' % z3.get_version_string()
+                ob.meta['abstraction'] = '%d non-linear products treated as uninterpreted constants' % nabs
+                ob.time = time.time() - t0
+                return ob
         text = _smt2(ob.pc, goal)
         tsec = timeout_ms // 1000
         ob.status = 'unknown'
@@ -386,6 +404,57 @@ def _nonlinear(f):
 
 
 _BUDGET = {'deadline': None}
+
+
+def _abstract_products(formulas):
+    """replace each maximal product of >= 2 non-numeral factors by a fresh constant of its sort; quantified formulas are
+    left as they are (their bound variables cannot be abstracted this way).  Returns (hypotheses, goal, number abstracted)"""
+    table = {}
+    cache = {}
+
+    def nonnum(c):
+        return not (z3.is_int_value(c) or z3.is_rational_value(c))
+
+    def walk(t):
+        k = t.get_id()
+        if k in cache:
+            return cache[k]
+        if z3.is_quantifier(t) or not z3.is_app(t):
+            r = t
+        else:
+            ch = t.children()
+            if t.decl().kind() == z3.Z3_OP_MUL and sum(1 for c in ch if nonnum(c)) >= 2 and not _has_bound_var(t):
+                nums = [c for c in ch if not nonnum(c)]
+                key = z3.simplify(z3.Product(*[c for c in ch if nonnum(c)])) if len([c for c in ch if nonnum(c)]) > 1 else t
+                kk = key.get_id()
+                if kk not in table:
+                    table[kk] = (key, z3.FreshConst(t.sort(), 'prod'))
+                r = table[kk][1]
+                for n_ in nums:
+                    r = n_ * r
+            elif ch:
+                nch = [walk(c) for c in ch]
+                r = t.decl()(*nch) if any(a is not b for a, b in zip(nch, ch)) else t
+            else:
+                r = t
+        cache[k] = r
+        return r
+    out = [walk(f) for f in formulas]
+    return out[:-1], out[-1], len(table)
+
+
+def _has_bound_var(t):
+    stack, seen = [t], set()
+    while stack:
+        x = stack.pop()
+        if x.get_id() in seen:
+            continue
+        seen.add(x.get_id())
+        if z3.is_var(x):
+            return True
+        if z3.is_app(x):
+            stack.extend(x.children())
+    return False
 
 
 def sat_check(pc, timeout_ms=5000):
